@@ -89,3 +89,12 @@ Fixpoint enqs_of (p : nat) (evs : list event) : list N :=
 Definition is_close (e : event) : bool := match e with EClose _ => true | _ => false end.
 Definition is_enq (e : event) : bool := match e with EEnq _ _ => true | _ => false end.
 Definition is_enqfail (e : event) : bool := match e with EEnqFail _ => true | _ => false end.
+
+(* list update at an index (shared by the queue models) *)
+Fixpoint upd {A} (i : nat) (x : A) (l : list A) : list A :=
+  match l, i with
+  | [], _ => []
+  | _ :: r, O => x :: r
+  | y :: r, S j => y :: upd j x r
+  end.
+
